@@ -326,6 +326,8 @@ def _equality(lit: AST) -> Optional[tuple[AST, AST]]:
     """given a lit, if it is of a form similar to X = Y+3,
     return X and Y+3"""
     if is_comparison(lit) and not collect_ast(lit, "Pool") and not collect_ast(lit, "Interval"):
+        if "_" in [var.name for var in collect_ast(lit, "Variable")]:  # every _ is a variable of its own
+            return None
         atom = lit.atom
         if atom.term.ast_type == ASTType.Variable and len(atom.guards) == 1:
             if (atom.guards[0].comparison == ComparisonOperator.Equal and lit.sign == Sign.NoSign) or (
